@@ -35,6 +35,7 @@ public:
   ak::ContentPtr get(const std::string& key) const override {
     void* h = g_cache_get(id_, key.c_str());
     if (h == nullptr) return ak::ContentPtr(nullptr);
+    if (h == reinterpret_cast<void*>(1)) throw AkbCallbackError();   // PyArrayCache::mutablemapping() threw (dead weak reference)
     return reinterpret_cast<AkbContent*>(h)->p;
   }
   void set(const std::string& key, const ak::ContentPtr& value) override {
